@@ -92,6 +92,10 @@ impl PkeSealingVersion for V1 {
         let c = rsa_encrypt(&sealing_key.0, &BigUint::from_bytes_be(&r))
             .map_err(|_| PasetoError::CryptoError)?
             .to_bytes_be();
+        // c is serialised at the fixed width of the 4096-bit modulus: left-pad with zeros
+        let mut c_fixed = vec![0u8; 512usize.saturating_sub(c.len())];
+        c_fixed.extend_from_slice(&c);
+        let c = c_fixed;
 
         let k = sha2::Sha384::digest(&c);
 
